@@ -216,6 +216,7 @@ def check(run):
     # behavioural half: C10 / C11 C++ contracts for all four configurations
     cxx_runtime.check_c10(run)
     cxx_runtime.check_c11(run)
+    cxx_runtime.check_constructors(run, "C12")
     from checks import cxx_filter
 
     cxx_filter.config_max_dt_literal(run, "C12")
@@ -231,6 +232,8 @@ def replay_file(payload):
         print("replay config literal:", [f.what for f in r.findings][:2] or "exact")
         return not r.findings
     inp = payload["inputs"]
+    if payload.get("configuration") and "t1" in inp:
+        return cxx_runtime.replay_c10(payload)
     if "n_sensors" in inp:
         _, problems = matrix_case((inp["has_control"], inp["has_calibration"], inp["n_sensors"], inp.get("seed", 0)))
         print("replay C12:", problems[:2] or "compiles, ticks equal the hand-made call sequence")
